@@ -271,6 +271,8 @@ def run(ctx):
             if m.get('crash') or f1['msgs'] != m['msgs'] or f1['p1i'] != m['p1i']:
                 ctx.broken_correspondence('open model differs from the implementation (history %s, index %s cut at %d): model %r, implementation msgs %r p1i %s'
                                           % (name, kind, k, m if m.get('crash') else (m['load'], m['msgs'][:4], m['p1i'] and len(m['p1i']) // 2), f1['msgs'][:4], f1['p1i'] and len(f1['p1i']) // 2), case)
+    nh = in_process_histories(ctx, model, g, logs, datas, frames0, fulls)
+    ctx.log('%d in-process histories done' % nh)
     for p in plan[:: max(1, len(plan) // 4)][:4]:
         ctx.sample({'log': [kk for kk, _ in logs[p[0]]], 'index_cut_at': p[1], 'history': p[2], 'ignore_index': p[5]})
     ctx.coverage['rule'] = ('%d logs (6 fixed shapes + corpus, thorough: + 38 random; junk between/after messages, type-0 messages in the middle and last, single message, cut tail); the saved index of each log cut at EVERY '
@@ -279,7 +281,7 @@ def run(ctx):
                             'tail junk stripped after each, two other logs) next to the complete index (SPEC applies) and next to the index cut at a record boundary (model only); data files named '
                             'log.p1log, capture.bin, capture.raw, session (no extension), session.5.log, input.p1log in rotation; opened with MixedLogReader (ignore_index False; True for 4 cut lengths), read to the end, '
                             'then re-opened; num_threads=1 except every ~11th case (default pool). Compared: message offsets/lengths/bytes, exception, .p1i afterwards. '
-                            'A case is distinct by (data file, index bytes, ignore_index).' % (len(logs), 'every message boundary' if ctx.thorough else 'the end/start of the last indexed message and one random boundary'))
+                            'In addition whole histories inside ONE interpreter and directory: index (complete / marker cut / one record) on disk, open, then data modified (message appended, junk+message appended, cut to a boundary, cut inside a message, restored, emptied; two orders) with a re-open after each change while the index file is left alone unless the library rewrites it; and on logs spanning two 80 KiB indexer blocks: first open with max_bytes (1000, 50000, 81919, 81920, 83000, size-1, size, size+5), then unlimited, limited, unlimited; unlimited then limited with ignore_index then unlimited. A case is distinct by (data file, index bytes, ignore_index).' % (len(logs), 'every message boundary' if ctx.thorough else 'the end/start of the last indexed message and one random boundary'))
     ctx.coverage['exhaustive'] = False
     ctx.coverage['exhaustive_scope'] = 'truncation lengths of the index file: all 0..len; data histories and logs: the listed / generated sets (not exhaustive)'
     ctx.trusted_base += ['Coq 8.16.1 kernel + vm_compute', 'extraction (ExtrOcamlBasic only), ocaml/conv.ml + c09_driver.ml',
@@ -293,7 +295,141 @@ def run(ctx):
 
 
 def tab(t):
-    return ','.join('%s=%s' % (h, 'n' if v is None else v) for h, v in t.items()) or '-'
+    # frames that are not listed have no P1 time in the driver
+    return ','.join('%s=%s' % (h, v) for h, v in t.items() if v is not None) or '-'
+
+
+def big_log(g, rng):
+    """a log that spans more than one 80 KiB indexer block: ~1 KiB messages back to back with a little junk, messages
+    straddling the block boundary (few scan positions, so the extracted model stays fast)"""
+    out = []
+    n = 0
+    i = 0
+    while n < 81920 + 21000:
+        k = 'msg-timed' if i % 9 == 4 else 'msg-unknown'
+        m = g.piece('msg-timed') if k == 'msg-timed' else c18.fe(60020 + i % 3, bytes((i * 7 + j) & 0xFF for j in range(700 + (i * 131) % 600)), 1000 + i)
+        out.append([k, m.hex()])
+        n += len(m)
+        i += 1
+        if i % 25 == 0:
+            out.append(['junk', b'\x00.junk'.hex()]); n += 6
+    return out
+
+
+def in_process_histories(ctx, model, g, logs, datas, frames0, fulls):
+    """whole histories inside one interpreter (the index file is left untouched between opens unless the library itself
+    rewrites it): open - modify data - re-open - ..., and byte-limited opens on a multi-block log."""
+    hist = []     # (description, name, steps)
+    for li, (d, fr, full) in enumerate(zip(datas, frames0, fulls)):
+        if full is None or not fr:
+            continue
+        nb = len(full) // 2
+        ends = [o + n for o, n in fr]
+        cutb = ends[len(ends) // 2 - 1] if len(ends) > 1 else fr[0][0]
+        mods = [('appended-message', d + g.appended), ('appended-junk-and-message', d + g.appended + b'\x00junk.' + g.appended),
+                ('cut-to-boundary', d[:cutb]), ('cut-mid-message', d[:max(1, ends[-1] - 3)]), ('restored', d), ('emptied', b'')]
+        ks = [nb, nb - REC] + ([REC] if nb > 2 * REC else [])
+        for k in ks:
+            for variant in range(2 if ctx.thorough or li < 3 else 1):
+                steps = [{'op': 'data', 'hex': d.hex()}, {'op': 'p1i', 'hex': full[:2 * k]}]
+                order = mods if variant == 0 else [mods[2], mods[4], mods[0], mods[5], mods[1], mods[3]]
+                steps.append({'op': 'open', 'threads': 1, 'what': 'first open'})
+                for nm, dd in order:
+                    steps.append({'op': 'data', 'hex': dd.hex()})
+                    steps.append({'op': 'open', 'threads': 1, 'what': nm})
+                    if nm in ('cut-to-boundary', 'appended-message'):
+                        steps.append({'op': 'open', 'threads': 1, 'what': nm + ', opened again'})
+                hist.append(('log %d, index cut at %d, order %d' % (li, k, variant), NAMES[(li + k) % len(NAMES)], steps, d))
+    # byte-limited opens on multi-block logs
+    for bi in range(3 if ctx.thorough else 1):
+        big = c18.file_of(big_log(g, ctx.rng))
+        size = len(big)
+        limits = [1000, 50000, 81919, 81920, 83000, size - 1, size, size + 5] if bi == 0 else [ctx.rng.randrange(24, size) for _ in range(4)]
+        for N in limits:
+            steps = [{'op': 'data', 'hex': big.hex()}, {'op': 'p1i', 'hex': None},
+                     {'op': 'open', 'threads': 1 if N % 2 else None, 'max_bytes': N, 'what': 'first open with max_bytes=%d' % N},
+                     {'op': 'open', 'threads': 1, 'what': 'unlimited open after a limited one'},
+                     {'op': 'open', 'threads': 1, 'max_bytes': N, 'what': 'limited open next to a complete index'},
+                     {'op': 'open', 'threads': 1, 'what': 'unlimited open again'}]
+            hist.append(('multi-block log %d (%d bytes), max_bytes=%d first' % (bi, size, N), 'big.p1log' if N % 3 else 'big.bin', steps, big))
+        for N in limits[1:4]:
+            steps = [{'op': 'data', 'hex': big.hex()}, {'op': 'p1i', 'hex': None},
+                     {'op': 'open', 'threads': 1, 'what': 'unlimited first open'},
+                     {'op': 'open', 'threads': 1, 'max_bytes': N, 'ignore': True, 'what': 'limited open with ignore_index'},
+                     {'op': 'open', 'threads': 1, 'what': 'unlimited open after limited ignore_index open'}]
+            hist.append(('multi-block log %d, unlimited then max_bytes=%d with ignore_index' % (bi, N), 'big.raw', steps, big))
+    recs = [{'id': str(i), 'name': h[1], 'steps': [{k: v for k, v in st.items() if k != 'what'} for st in h[2]]} for i, h in enumerate(hist)]
+    impl = run_impl(ctx, 'hist', recs)
+    # distinct data files -> SPEC frames and P1 tables
+    dset = []
+    for h in hist:
+        for st in h[2]:
+            if st['op'] == 'data':
+                b = bytes.fromhex(st['hex'])
+                if b not in dset:
+                    dset.append(b)
+    tabs = p1_tables(ctx, model, dset)
+    spec_fr = {b: frames_of(l) for b, l in zip(dset, vf.run_parallel(model, ['F ' + c18.hx(b) for b in dset]))}
+    lines, meta = [], []
+    for i, h in enumerate(hist):
+        r = impl[str(i)]
+        if 'harness_error' in r:
+            raise RuntimeError('c09 hist harness error: %s\n%s' % (r['harness_error'], r.get('tb')))
+        cur, oi = b'', 0
+        base = None
+        for st in h[2]:
+            if st['op'] == 'data':
+                cur = bytes.fromhex(st['hex'])
+            elif st['op'] == 'p1i':
+                base = h[3] if st['hex'] is not None else None
+            else:
+                o = r['opens'][oi]; oi += 1
+                bp = o['before_p1i']
+                lines.append('O cur %s %s %d %s%s' % ('none' if bp is None else (bp or '-'), c18.hx(cur), 1 if st.get('ignore') else 0, tab(tabs[cur]),
+                                                       '' if st.get('max_bytes') is None else ' %d' % st['max_bytes']))
+                applies = bp is None or st.get('ignore') or (base is not None and (cur.startswith(base) or base.startswith(cur)))
+                meta.append((i, st, cur, o, applies))
+                if o.get('p1i') != bp:
+                    base = cur if o.get('p1i') is not None else None
+    mo = [parse_o(l) for l in vf.run_parallel(model, lines)]
+    seen = set()
+    for (i, st, cur, o, applies), m in zip(meta, mo):
+        h = hist[i]
+        N = st.get('max_bytes')
+        want = spec_fr[cur]
+        if N is not None and N < len(cur):
+            w2 = []
+            for a, n in want:
+                if a + n > N:
+                    break
+                w2.append([a, n])
+            want = w2
+        ctx.case(('hist', i, st['what'])); ctx.count('in-process-history:' + ('max_bytes' if N is not None else 'reopen'))
+        case = {'history': h[0], 'file_name': h[1], 'step': st['what'], 'steps': [dict(x, hex=(x['hex'] if x.get('hex') is None or len(x['hex']) < 4000 else x['hex'][:64] + '...(%d bytes)' % (len(x['hex']) // 2))) if 'hex' in x else x for x in h[2]],
+                'impl': {k: (v if k != 'msgs' else v[:12]) for k, v in o.items() if k != 'tb'}, 'model': {k: (v if k != 'msgs' else v[:12]) for k, v in m.items()},
+                'spec_msgs': want[:12], 'spec_count': len(want), 'spec_applies': applies,
+                'replay_steps': [{k: v for k, v in x.items()} for x in h[2]]}
+        sig = {'obs': None, 'history': 'in-process', 'step': ('max_bytes' if N is not None else st['what'].split(',')[0]), 'ignore_index': bool(st.get('ignore'))}
+        bad = None
+        if 'exc' in o:
+            bad = (dict(sig, obs='exception', exc=o['exc']), 'history [%s], %s: opening raised %s: %s' % (h[0], st['what'], o['exc'], o['msg']))
+        elif applies and (o['msgs'] != want or not o['bytes_ok']):
+            bad = (dict(sig, obs='messages'), 'history [%s], %s: the reader returns %d messages, a fresh read of the current data %d%s'
+                   % (h[0], st['what'], len(o['msgs']), len(want), '' if N is None else ' (within max_bytes=%d)' % N))
+        elif not o['data_unchanged']:
+            bad = (dict(sig, obs='data-modified'), 'opening the log modified the data file')
+        if bad:
+            key = json.dumps(bad[0], sort_keys=True)
+            if key not in seen:
+                seen.add(key)
+                ctx.violation(bad[0], bad[1], case)
+            ctx.count('outcome:violation:' + bad[0]['obs'])
+        elif m.get('crash') or o['msgs'] != m['msgs'] or o['p1i'] != m['p1i']:
+            ctx.broken_correspondence('in-process history [%s], %s: model and implementation differ (msgs equal: %s, .p1i equal: %s)'
+                                      % (h[0], st['what'], (not m.get('crash')) and o['msgs'] == m['msgs'], (not m.get('crash')) and o['p1i'] == m['p1i']), case)
+        else:
+            ctx.count('outcome:ok')
+    return len(hist)
 
 
 def p1_tables(ctx, model, datas):
@@ -323,6 +459,28 @@ def replay(ctx, rec):
     case = rec.get('case', rec)
     gen_fe.generate(); gen_c09.generate()
     model = build_model()
+    if 'replay_steps' in case:
+        steps = case['replay_steps']
+        r = run_impl(ctx, 'hist', [{'id': '0', 'name': case.get('file_name', 'log.p1log'), 'steps': [{k: v for k, v in st.items() if k != 'what'} for st in steps]}])['0']
+        cur, oi, bad = b'', 0, 0
+        for st in steps:
+            if st['op'] == 'data':
+                cur = bytes.fromhex(st['hex'])
+            elif st['op'] == 'open':
+                o = r['opens'][oi]; oi += 1
+                want = frames_of(vf.run_lines(model, ['F ' + c18.hx(cur)])[1][0])
+                N = st.get('max_bytes')
+                if N is not None and N < len(cur):
+                    w2 = []
+                    for a, n in want:
+                        if a + n > N:
+                            break
+                        w2.append([a, n])
+                    want = w2
+                ok = 'exc' not in o and o['msgs'] == want
+                bad += not ok
+                print('%-50s IMPL %s | SPEC %d messages | %s' % (st.get('what'), o.get('exc') or '%d messages' % len(o['msgs']), len(want), 'ok' if ok else 'DIFFERS'))
+        return 1 if bad else 0
     d = bytes.fromhex(case['data_hex'])
     p1i = case['p1i_hex']
     t = p1_tables(ctx, model, [d])[d]
